@@ -140,6 +140,7 @@ func checkC14(c *Ctx) {
 		c14Frames(c, p, m)
 		c14Flow(c, p, m)
 		c14FuncName(c, p)
+		c14PrintDecision(c, p, m)
 		c09Globals(c, p, m)
 		packageNamesakes(c, p, "R10.8")
 		freshChildren(c, p, m, "R14.3", func(n string) bool { return n == "WithSkip" })
@@ -1124,4 +1125,98 @@ func c14FuncName(c *Ctx, p *Prog) {
 	}
 	r.Check(len(probs) == 0, "R14.6", "funcname:checkedfuncname", p.FuncPos(fn), fmt.Sprintf("only a leading package path is dropped or abbreviated (%d re-slice/strings sites, all keep the end of the name)", n),
 		"the function name reported no longer identifies the issuing function (methods of generic types, closures in generic functions): "+strings.Join(probs, "; "))
+}
+
+// c14PrintDecision: R14.5 (second half) — whether the caller is PRINTED depends on the caller flag, the output mode
+// and the blank-line shortcut only: every branch edge that dominates the call of the caller printer tests a flag
+// constant, a mode bit, or the "blank Print" condition. A test of the record's own attributes (for instance "an
+// attribute is already named caller") takes the caller information away from some records.
+func c14PrintDecision(c *Ctx, p *Prog, m *Model) {
+	r := c.R
+	pp := p.Method(p.Slog, "Entry", "printPC")
+	if pp == nil {
+		r.Unk("R14.5", "print-decision", "-", "printPC not found")
+		return
+	}
+	n := 0
+	for _, cs := range p.staticCallers()[pp] {
+		fn := cs.Parent()
+		n++
+		var probs []string
+		for _, g := range guardsOf(cs.Block()) {
+			bad := ""
+			var leaf func(v ssa.Value, depth int)
+			leaf = func(v ssa.Value, depth int) {
+				v, _ = normCond(v)
+				if depth > 5 || bad != "" {
+					return
+				}
+				switch x := v.(type) {
+				case *ssa.Const:
+				case *ssa.Phi:
+					for i, e := range x.Edges {
+						if _, isC := e.(*ssa.Const); isC {
+							if pi := ifOf(x.Block().Preds[i]); pi != nil {
+								leaf(pi.Cond, depth+1)
+							}
+							continue
+						}
+						leaf(e, depth+1)
+					}
+				case *ssa.Call:
+					cal := calleeOf(x)
+					switch {
+					case cal != nil && (nm(cal) == "IsAnyBitsSet" || nm(cal) == "IsAllBitsSet"):
+						if _, isC := constInt(x.Common().Args[0]); !isC {
+							bad = "a flag test with a computed mask"
+						}
+					case cal != nil && len(cal.Params) == 0 && cal.Pkg == p.Slog && len(cal.Blocks) == 1:
+						// a parameterless predicate over the flags word
+					case cal != nil && cal.Pkg == p.Slog && allBytesWhite(cal):
+					default:
+						bad = "the result of " + x.Common().String()
+					}
+				case *ssa.BinOp:
+					okOp := false
+					for _, side := range []ssa.Value{x.X, x.Y} {
+						s := strip(side)
+						if _, isMode := modeCond(s, Mode{}); isMode {
+							okOp = true
+						}
+						if base, _, f, isF := fieldLoad(s); isF && typeName(base.Type()) == "PrintCtx" && (nm(f) == "lvl" || nm(f) == "noColor" || nm(f) == "jsonMode") {
+							okOp = true
+						}
+						if call, isCall := s.(*ssa.Call); isCall {
+							if cal := calleeOf(call); cal != nil && cal.Pkg != nil && cal.Pkg.Pkg.Path() == "strings" {
+								okOp = true // strings.Trim(msg, ...) == ""
+							}
+						}
+						if g2, isG := globalLoad(s); isG && nm(g2) == "flags" {
+							okOp = true
+						}
+						if b2, isB := s.(*ssa.BinOp); isB && b2.Op == token.AND {
+							okOp = true // flags & L
+						}
+					}
+					if !okOp {
+						bad = x.String()
+					}
+				case *ssa.UnOp:
+					if _, isMode := modeCond(x, Mode{}); !isMode {
+						bad = x.String()
+					}
+				default:
+					bad = v.String()
+				}
+			}
+			leaf(g.If.Cond, 0)
+			if bad != "" {
+				probs = append(probs, fmt.Sprintf("%s (%s) at %s", m.guardDesc(g), bad, p.Pos(instrPos(g.If))))
+			}
+		}
+		r.Check(len(probs) == 0, "R14.5", "print-decision:"+shortName(fn), p.Pos(instrPos(cs)), "the caller is printed under the caller flag, the mode and the blank-line shortcut only", "whether the caller is printed also depends on "+strings.Join(probs, "; ")+": records for which that test fails carry no caller information although it is enabled")
+	}
+	if n == 0 {
+		r.Unk("R14.5", "print-decision", "-", "the caller printer is not called")
+	}
 }
